@@ -73,6 +73,8 @@ NAMED = [
   ('C.fnum', 'Any', True, u'$«C.num» * 2 + 1', 'dollar'),
   ('C.fref', 'Ref:«@A»', True, u'«@A».lookupOne(«A.txt»=$«C.key»)', 'lookupOne-typed-ref'),
   ('C.fany', 'Any', True, u'$«C.ref»', 'dollar-ref'),
+  ('C.fset', 'Any', True, u'«@A».lookupRecords(«A.cat»=$«C.txt»)', 'lookupR-any-recordset'),
+  ('C.frl', 'RefList:«@A»', True, u'«@A».lookupRecords(«A.txt»=$«C.key»)', 'lookupR-typed-reflist'),
 ]
 
 FORMS = [
@@ -123,6 +125,8 @@ FORMS = [
   ('ref-typed-formula', 'C', u'$«C.fref».«A.num»'),
   ('ref-any-formula', 'C', u'$«C.fany».«B.txt»'),
   ('ref-any-formula2', 'C', u'$«C.fany».«B.ref».«A.txt»'),
+  ('recordset-any-formula', 'C', u'list($«C.fset».«A.num»)'),
+  ('reflist-typed-formula', 'C', u'list(rec.«C.frl».«A.cat»)'),
   # look-alikes that must not change
   ('la-string', 'C', u'"‹C.num› $‹C.num› ‹@A›" + str($«C.num»)'),
   ('la-comment', 'C', u'$«C.num»  # ‹C.num› and $‹C.num› in ‹@A›'),
@@ -220,7 +224,7 @@ def strategy(tier):
   return st.fixed_dictionaries({
     'nt': st.sampled_from([3, 3, 3, 2]),
     'tn': st.lists(st.integers(0, len(TABLE_POOL) - 1), min_size=3, max_size=3),
-    'cn': st.lists(st.integers(0, len(COL_POOL) - 1), min_size=19, max_size=19),
+    'cn': st.lists(st.integers(0, len(COL_POOL) - 1), min_size=21, max_size=21),
     'colliketab': st.integers(0, 5),
     'fn_table': st.integers(0, 39),
     'rows': st.fixed_dictionaries({
@@ -252,9 +256,10 @@ def _pick_names(case):
   if fn % 40 == 39:
     names['A'] = FN_TABLE_NAMES[(fn // 40 + tn[0]) % len(FN_TABLE_NAMES)]
   cn = [int(x) for x in list(case.get('cn') or [])]
-  cn = (cn + list(range(19)))[:19]
+  cn = (cn + list(range(21)))[:21]
   layout = [('A', ['txt', 'num', 'cat', 'self']), ('B', ['txt', 'ref', 'amt']),
-            ('C', ['txt', 'ref', 'list', 'num', 'key', 'aref', 'fnum', 'fref', 'fany', 'trig']), ('S', ['tot', 'x'])]
+            ('C', ['txt', 'ref', 'list', 'num', 'key', 'aref', 'fnum', 'fref', 'fany', 'trig', 'fset', 'frl']),
+            ('S', ['tot', 'x'])]
   j = 0
   used_c = set()
   for t, cols in layout:
@@ -579,7 +584,8 @@ def resolve_rename(d, stt, obs, spec, out):
   ents = sorted(e for e in stt['present'] if '.' in e)
   # tables and the columns most formulas mention are drawn more often
   hot = ['A', 'B', 'C', 'A', 'C', 'A', 'B', 'C', 'A.num', 'A.txt', 'A.cat', 'C.num', 'C.key', 'C.txt', 'A.num', 'C.num',
-         'A.txt', 'C.key', 'C.ref', 'B.ref', 'B.txt', 'C.list', 'C.aref', 'A.self', 'C.fany', 'C.fref']
+         'A.txt', 'C.key', 'C.ref', 'B.ref', 'B.txt', 'C.list', 'C.aref', 'A.self', 'C.fany', 'C.fref', 'C.fset',
+         'C.frl']
   pool = ents + [t for t in hot if t in stt['present']]
   names_now = current_names(stt, obs)
   ent = pool[abs(int(spec.get('ent') or 0)) % len(pool)]
